@@ -82,7 +82,14 @@ class C13(Prop):
         c.pop("expect", None)
         pre = []
         for op in scn["ops"][:r]:
-            if op["op"] == "set" and op["attr"] in ("rtol", "atol", "method", "tf", "kick", "constants"):
+            if op["op"] == "set" and op["attr"] in ("rtol", "atol"):
+                # "a freshly constructed system with the same settings": tolerances go to the constructor, not through the setter
+                c["system"][op["attr"]] = op["value"]
+                continue
+            if op["op"] == "set" and op["attr"] == "tf":
+                c["system"]["tf"] = op["value"]
+                continue
+            if op["op"] == "set" and op["attr"] in ("method", "kick", "constants"):
                 pre.append(copy.deepcopy(op))
             if op["op"] in ("jac_hook", "jac_unhook"):
                 pre.append(copy.deepcopy(op))
